@@ -196,7 +196,7 @@ func checkIso(c IsoCase, ctx *vcommon.Ctx) *vcommon.Failure {
 		ctx.Class("skip/parse-error")
 		return nil
 	}
-	fps := []uint64{fingerprint(pS), fingerprint(pQ), fingerprint(pA)}
+	fps := []snap{snapshot(pS), snapshot(pQ), snapshot(pA)}
 	newB := func() *vcommon.Rt { return vcommon.NewRuntime(c.LimitsB.cfg()) }
 	observeN := func(rt *vcommon.Rt, n int) []transcript {
 		out := make([]transcript, n)
@@ -327,8 +327,8 @@ func checkIso(c IsoCase, ctx *vcommon.Ctx) *vcommon.Failure {
 		}
 	}
 	for i, p := range []lisp.Program{pS, pQ, pA} {
-		if fp := fingerprint(p); fp != fps[i] {
-			return vcommon.Failf("fingerprint/isolation", "sealed fingerprint of shared program %d changed\nA's activity:\n%s", i, c.Activity)
+		if kind, what := fps[i].changed(p, []string{c.Shared, c.Observe, c.Activity}[i]); kind != "" {
+			return vcommon.Failf(kind+"/isolation", "shared parsed program %d was changed: %s\nA's activity:\n%s", i, what, c.Activity)
 		}
 	}
 	return nil
